@@ -689,10 +689,15 @@ def run_application_styles(sh, lab):
         return 0
 
     for claims in ((False, False), (True, True), (True, False), (False, True)):
-        for switch in ([], ["--ansi"], ["--no-ansi"]):
+        for si, switch in enumerate(([], ["--ansi"], ["--no-ansi"])):
+            batch = (si + int(claims[0])) % 2 == 1
             cfg = DefaultApplicationConfig("app", "1.0")
             cfg.set_terminate_after_run(False)
-            cfg.add_style(lab.style("warn", "yellow", None, ("bold",)))
+            # one style at a time, or a batch
+            if batch:
+                cfg.add_styles([lab.style("warn", "yellow", None, ("bold",)), lab.style("note", "cyan", None, ())])
+            else:
+                cfg.add_style(lab.style("warn", "yellow", None, ("bold",)))
             cfg.create_command("run").set_handler(CallbackHandler(handler))
             so, se = lab.RecStream(claims[0]), lab.RecStream(claims[1])
             case = {"kind": "application-styles", "streams_claim_ansi": list(claims), "switch": switch}
